@@ -1,6 +1,7 @@
 package rules
 
 import (
+	"fmt"
 	"go/token"
 	"go/types"
 
@@ -105,6 +106,59 @@ func c18(r *core.Report) {
 				}
 			}
 			r.Check(ok2, "C18-COUNT-PAIR", c, p.Pos(call.Pos()), "every path on which the bucket changed size passes a store to count", "the bucket's size can change here without count being adjusted: the reported count drifts from the number of entries held (and the cache evicts live entries to make room for entries that are gone, or exceeds its capacity)")
+		}
+	}
+
+	// ---- C18-COUNT-AMOUNT: count moves by one per added/removed entry, or by exactly the number of
+	// entries one bucket operation removed: len(result) - len(the slice handed to that same call)
+	r.Rule("C18-COUNT-AMOUNT", "count is adjusted by 1, or by len(result) - len(argument) of the very bucket call that removed the entries", 4)
+	for _, fn := range p.ModFuncs {
+		if fn.Signature.Recv() == nil || !isNamed(fn.Signature.Recv().Type(), cache) {
+			continue
+		}
+		for _, in := range core.AllInstrs(fn) {
+			if !isCountStore(in) {
+				continue
+			}
+			st := in.(*ssa.Store)
+			c := core.FnName(fn) + " count adjustment"
+			b, ok := st.Val.(*ssa.BinOp)
+			if !ok || (b.Op != token.ADD && b.Op != token.SUB) {
+				r.Violation("C18-COUNT-AMOUNT", c, p.Pos(st.Pos()), "count is assigned something other than count ± amount")
+				continue
+			}
+			if fx, _ := core.FieldRead(b.X); !core.SameField(fx, countF) {
+				r.Violation("C18-COUNT-AMOUNT", c, p.Pos(st.Pos()), "the adjustment does not start from the current count")
+				continue
+			}
+			if k, isK := core.ConstInt(b.Y); isK {
+				r.Check(k == 1, "C18-COUNT-AMOUNT", c, p.Pos(st.Pos()), "count moves by one for one entry", fmt.Sprintf("count moves by %d for a single bucket operation", k))
+				continue
+			}
+			okAmt := false
+			why := "the amount is not of the form len(result) - len(argument)"
+			if d, isD := core.Through(b.Y).(*ssa.BinOp); isD && d.Op == token.SUB && b.Op == token.SUB {
+				lenOf := func(v ssa.Value) ssa.Value {
+					if cl, ok := core.Through(v).(*ssa.Call); ok && core.IsBuiltin(cl.Common(), "len") {
+						return cl.Call.Args[0]
+					}
+					return nil
+				}
+				res, base := lenOf(d.X), lenOf(d.Y)
+				if rc, isCall := res.(*ssa.Call); isCall && base != nil {
+					if callee := core.StaticCallee(rc.Common()); callee != nil && writers[callee] {
+						why = "the baseline length is not taken from the slice passed to the bucket call whose result is measured (entries removed by earlier calls are subtracted again)"
+						for _, a := range rc.Call.Args {
+							if a == base {
+								okAmt = true
+							}
+						}
+					} else {
+						why = "the measured slice is not the result of a bucket operation"
+					}
+				}
+			}
+			r.Check(okAmt, "C18-COUNT-AMOUNT", c, p.Pos(st.Pos()), "count drops by the number of entries that one bucket call appended to its output", why+": Count() drifts from the number of entries held, and the cache exceeds or undershoots its capacity")
 		}
 	}
 
